@@ -160,7 +160,7 @@ def locate(path, sig_regex, nth=0, within=None):
         m = re.search(within, s)
         if not m:
             raise ExtractionError(f"{path}: enclosing scope /{within}/ not found")
-        b = s.find("{", m.end())
+        b = s.find("{", m.start())
         lo, hi = b, match_close(s, b) + 1
     ms = [m for m in re.finditer(sig_regex, s[lo:hi], flags=re.S)]
     # keep only matches followed (at paren depth 0) by '{' before any ';'  (definitions, not declarations/calls)
